@@ -81,7 +81,7 @@ Definition cv_unknown_key (fs : list inputvaldef) (obj : jmap) : bool :=
 (* the built-in scalar tests; None = "fall through to the final error" *)
 Definition cv_scalar_ok (n : str) (v : json) : bool :=
   if streq n rn_Int then
-    match json_as_i64 v with Some z => fits_i32 z | None => false end
+    match json_as_i64 v with Some z => j_fits_i32 z | None => false end
   else if streq n rn_Float then
     json_is_f64 v ||
     match v with JInt z => json_int_as_f64_abs_lt_max_safe z | _ => false end
@@ -154,10 +154,10 @@ Fixpoint cv_value (fuel : nat) (s : schema) (t : ty) (v : json) : cv_res json :=
         end
   end.
 
-Fixpoint ty_size (t : ty) : nat :=
+Fixpoint cv_ty_size (t : ty) : nat :=
   match t with
   | TNamed _ | TNonNullNamed _ => 1
-  | TList i | TNonNullList i => S (ty_size i)
+  | TList i | TNonNullList i => S (cv_ty_size i)
   end.
 
 (* ---- coerce_variable_values ---- *)
@@ -181,12 +181,12 @@ Fixpoint cv_vars (fuel : nat) (s : schema) (vars : list vardef) (values : jmap) 
   end.
 
 Fixpoint cv_max_ty_size (vars : list vardef) : nat :=
-  match vars with [] => O | vd :: r => Nat.max (ty_size (v_ty vd)) (cv_max_ty_size r) end.
+  match vars with [] => O | vd :: r => Nat.max (cv_ty_size (v_ty vd)) (cv_max_ty_size r) end.
 
 Definition cv_schema_max_ty_size (s : schema) : nat :=
   fold_right (fun t acc =>
     match t with
-    | EInput _ _ _ fs _ => fold_right (fun f a => Nat.max (ty_size (iv_ty (c_val f))) a) acc fs
+    | EInput _ _ _ fs _ => fold_right (fun f a => Nat.max (cv_ty_size (iv_ty (c_val f))) a) acc fs
     | _ => acc
     end) O (sch_types s).
 
